@@ -551,6 +551,17 @@ def operator_table():
             For(Decl(P("int"), "j", I(1)), Bin("<", Var("j"), I(4)), Asg("j", Bin("+", Var("j"), I(1))),
                 [Expr(Asg("acc", Arr("int", [Var("j"), Bin("*", Var("j"), Var("j"))]))), Echo(Var("acc"))])]
     progs.append(Program([pair, weight, halves, Func("main", [], VOID, body)]))
+    # the value of an assignment expression is the value assigned (chains, initialisers, arguments, echo, conditions, widening)
+    twice = Func("twice", [Param(P("int"), "x")], P("int"), [Ret(Bin("*", Var("x"), I(2)))])
+    body = [Decl(P("int"), "a", I(1)), Decl(P("int"), "b", I(2)), Decl(P("int"), "c", I(3)), Decl(P("long"), "w", L(1)), Decl(P("float"), "f", F(1, 2)), Decl(P("str"), "s", S("x")),
+            Expr(Asg("a", Asg("b", I(7)))), Echo(Var("a")), Echo(Var("b")),
+            Expr(Asg("a", Asg("b", Asg("c", Bin("+", Var("a"), I(4)))))), Echo(Var("a")), Echo(Var("b")), Echo(Var("c")),
+            Decl(P("int"), "d", Asg("c", I(5))), Echo(Var("d")), Echo(Call("twice", Asg("c", I(11)))), Echo(Asg("c", I(9))), Echo(Var("c")),
+            Expr(Asg("w", Asg("a", I(6)))), Echo(Var("w")), Expr(Asg("s", Asg("s", S("y")))), Echo(Var("s")),
+            Expr(Asg("f", Asg("f", Bin("+", Var("f"), F(1, 1))))), Echo(Var("f")),
+            Decl(P("bool"), "flag", Bool(False)), Decl(P("bool"), "flag2", Asg("flag", Bin("==", Var("c"), I(9)))), Echo(Var("flag")), Echo(Var("flag2")),
+            For(Decl(P("int"), "i", I(0)), Bin("<", Var("i"), I(3)), Asg("i", Asg("a", Bin("+", Var("i"), I(1)))), [Echo(Bin("+", Var("i"), Var("a")))]), Echo(Var("a"))]
+    progs.append(Program([twice, Func("main", [], VOID, body)]))
     tyname = {"int": "int", "long": "long", "float": "float", "bool": "bool", "bit": "bit", "str": "str", "char": "char"}
     vb = []
     for c in batch:
